@@ -273,6 +273,12 @@ theorem build_wf (p : Parsed) (rad : Bool) (q : QAtom) (h : buildAtom p rad = .o
     · cases h
     · exact buildExt_wf _ _ _ _ h
 
+/-- the regenerated setter domains are the documented ones: counts 0…14, hybridisation 1…4, ring sizes ≥ 3 (0 = no-ring mark),
+    charge −4…4, bond orders 1, 2, 3, 4, 8; primitive letters `D h r x z` -/
+theorem setter_domains :
+    countLo = 0 ∧ countHi = 14 ∧ hybLo = 1 ∧ hybHi = 4 ∧ ringMin = 3 ∧ chargeLo = -4 ∧ chargeHi = 4 ∧
+    bondOrders = [1, 2, 3, 4, 8] ∧ primLetters = ['D', 'h', 'r', 'x', 'z'] := by decide
+
 /-! ## 5. rejection kind -/
 
 /-- **smarts_reject_kind** (full statement): whatever the text and the CX radical indices, `smarts()` either returns a query
@@ -416,5 +422,115 @@ theorem not_in_ring_spec (sssr : List (List Nat)) (n : Nat) :
   rw [← this]
   unfold ringRejects
   simp
+
+/-! ## 8. end to end: SMARTS text → match, against the documented meaning -/
+
+/-- the documented meaning of a well-formed documented atom is a well-formed query -/
+theorem denote_wf (d : DocAtom) (h : DocWF d = true) : QWF (denote d) := by
+  unfold DocWF at h
+  simp only [Bool.and_eq_true] at h
+  obtain ⟨⟨⟨⟨⟨⟨⟨⟨⟨⟨⟨_, _⟩, _⟩, _⟩, _⟩, hr3⟩, hnr⟩, _⟩, _⟩, _⟩, _⟩, _⟩ := h
+  unfold QWF denote
+  have ring : (if d.notRing = true then [0] else d.rings) = [0] ∨ 0 ∉ (if d.notRing = true then [0] else d.rings) := by
+    by_cases hn : d.notRing = true
+    · left; simp [hn]
+    · right
+      simp only [hn]
+      intro h0
+      have := List.all_eq_true.mp hr3 0 h0
+      simp at this
+  cases hh : d.head <;> simp only [] <;> first | exact ring | (right; simp)
+
+/-- **smarts_match_is_documented**: for every documented atom `d` of the grid and **every** atom `a` of any molecule, the query
+    that `smarts()` builds from the canonical spelling of `d` compares equal to `a` exactly when the documented meaning of `d`
+    holds of `a` (composition of `smarts_roundtrip`, `denote_wf` and `eq_is_spec`). -/
+theorem smarts_match_is_documented (d : DocAtom) (hd : d ∈ docGrid) (a : MAtom) (ha : AWF a) :
+    ∃ q, smartsModel ('[' :: printDoc d ++ [']']) [] = .ok ⟨[(numberOf d, q)], []⟩ ∧
+      (pyEq q a = true ↔ Matches (denote d) a) := by
+  obtain ⟨hwf, hrt⟩ := smarts_roundtrip d hd
+  exact ⟨denote d, hrt, eq_is_spec (denote d) a (denote_wf d hwf) ha⟩
+
+/-- the documented meaning spelled out for the primitives of an element / list / any head (what `Matches (denote d)` says):
+    `D` lists the allowed neighbour counts, `h` the hydrogens, `x` the heteroatoms, `z`/`a` the hybridisation,
+    `r` ring sizes (some listed size among the atom's), `!R` no ring -/
+theorem documented_primitives (d : DocAtom) (a : MAtom) (hm : d.head ≠ .metal) (h0 : 0 ∉ d.rings)
+    (h : Matches (denote d) a) :
+    (d.neighbors ≠ [] → a.neighbors ∈ d.neighbors) ∧
+    (d.hydrogens ≠ [] → ∃ k, a.implH = some k ∧ k ∈ d.hydrogens) ∧
+    (d.hetero ≠ [] → a.heteroatoms ∈ d.hetero) ∧
+    (d.aromatic = true → a.hybridization = 4) ∧
+    (d.aromatic = false → d.hyb ≠ [] → a.hybridization ∈ d.hyb) ∧
+    (d.notRing = true → a.ringSizes = []) ∧
+    (d.notRing = false → d.rings ≠ [] → ∃ s, s ∈ d.rings ∧ s ∈ a.ringSizes) ∧
+    d.charge = a.charge := by
+  unfold Matches denote at h
+  cases hh : d.head with
+  | metal => exact absurd hh hm
+  | one i =>
+    simp only [hh] at h
+    obtain ⟨_, hc, _, hn, hy, hr, hH, hx⟩ := h
+    refine ⟨?_, ?_, ?_, ?_, ?_, ?_, ?_, hc⟩
+    · intro ne; rcases hn with e | m; exact absurd e ne; exact m
+    · intro ne; rcases hH with e | m; exact absurd e ne; exact m
+    · intro ne; rcases hx with e | m; exact absurd e ne; exact m
+    · intro ar; simp only [ar, if_true] at hy; rcases hy with e | m; simp at e; simpa using m
+    · intro ar ne; simp only [ar] at hy; rcases hy with e | m; exact absurd e ne; exact m
+    · intro nr; simp only [nr, if_true] at hr
+      rcases hr with e | ⟨_, e⟩ | ⟨e, _⟩
+      · simp at e
+      · exact e
+      · simp at e
+    · intro nr ne; simp only [nr, Bool.false_eq_true, if_false] at hr
+      rcases hr with e | ⟨e, _⟩ | ⟨_, s, hs, hs'⟩
+      · exact absurd e ne
+      · exact absurd (e ▸ List.mem_singleton.mpr rfl) h0
+      · exact ⟨s, hs, hs'⟩
+  | list l =>
+    simp only [hh] at h
+    obtain ⟨_, hc, _, hn, hy, hr, hH, hx⟩ := h
+    refine ⟨?_, ?_, ?_, ?_, ?_, ?_, ?_, hc⟩
+    · intro ne; rcases hn with e | m; exact absurd e ne; exact m
+    · intro ne; rcases hH with e | m; exact absurd e ne; exact m
+    · intro ne; rcases hx with e | m; exact absurd e ne; exact m
+    · intro ar; simp only [ar, if_true] at hy; rcases hy with e | m; simp at e; simpa using m
+    · intro ar ne; simp only [ar] at hy; rcases hy with e | m; exact absurd e ne; exact m
+    · intro nr; simp only [nr, if_true] at hr
+      rcases hr with e | ⟨_, e⟩ | ⟨e, _⟩
+      · simp at e
+      · exact e
+      · simp at e
+    · intro nr ne; simp only [nr, Bool.false_eq_true, if_false] at hr
+      rcases hr with e | ⟨e, _⟩ | ⟨_, s, hs, hs'⟩
+      · exact absurd e ne
+      · exact absurd (e ▸ List.mem_singleton.mpr rfl) h0
+      · exact ⟨s, hs, hs'⟩
+  | any =>
+    simp only [hh] at h
+    obtain ⟨_, hc, _, hn, hy, hr, hH, hx⟩ := h
+    refine ⟨?_, ?_, ?_, ?_, ?_, ?_, ?_, hc⟩
+    · intro ne; rcases hn with e | m; exact absurd e ne; exact m
+    · intro ne; rcases hH with e | m; exact absurd e ne; exact m
+    · intro ne; rcases hx with e | m; exact absurd e ne; exact m
+    · intro ar; simp only [ar, if_true] at hy; rcases hy with e | m; simp at e; simpa using m
+    · intro ar ne; simp only [ar] at hy; rcases hy with e | m; exact absurd e ne; exact m
+    · intro nr; simp only [nr, if_true] at hr
+      rcases hr with e | ⟨_, e⟩ | ⟨e, _⟩
+      · simp at e
+      · exact e
+      · simp at e
+    · intro nr ne; simp only [nr, Bool.false_eq_true, if_false] at hr
+      rcases hr with e | ⟨e, _⟩ | ⟨_, s, hs, hs'⟩
+      · exact absurd e ne
+      · exact absurd (e ▸ List.mem_singleton.mpr rfl) h0
+      · exact ⟨s, hs, hs'⟩
+
+/-- every documented bond token, read by `smarts()`, matches a bond exactly when its order is one of the documented orders and
+    the ring mark (if written) agrees -/
+theorem bond_token_match_is_documented (b : DocBond) (mb : MBond) :
+    bondEq (denoteBond b) mb = true ↔ (mb.order ∈ (denoteBond b).orders ∧ (b.ring = none ∨ b.ring = some mb.inRing)) := by
+  rw [bond_eq_is_spec]
+  unfold BondMatches
+  have : (denoteBond b).inRing = b.ring := rfl
+  rw [this]
 
 end ChythonModel.Props.C08
